@@ -4,6 +4,8 @@ MK = 'pedal/sandbox/mocked.py'
 TO = 'pedal/sandbox/timeout.py'
 
 CASES = [
+    dict(name='revert-fix-format_line-without-columns', kind='mutant', rule='R4', key='format_line[',
+         edits=[dict(file='pedal/utilities/exceptions.py', old="        if frame.colno is None or frame.end_colno is None:", new="        if False:")]),
     dict(name='narrow-exception-handler', kind='mutant', rule='R1', key='Sandbox._execute',
          edits=[dict(file=SB, old="        except Exception as user_exception:\n            self._stop_mocking(context)",
                      new="        except ArithmeticError as user_exception:\n            self._stop_mocking(context)")]),
